@@ -4,7 +4,7 @@
     little-endian, [value w] is the number a list denotes, [wf w] says every word is in [0, B). *)
 From Dashu Require Import Base.Prelude Base.Words Int.RingSpec Int.RingSign Int.RingAdd Int.RingAddProofs
   Int.RingMul Int.RingMulProofs Int.RingKaraProofs Int.RingToomProofs Int.RingDispatchProofs Int.RingSqrProofs
-  Int.RingOps Int.RingOpsProofs Int.RingOpsMulProofs Int.RingPowProofs Int.RingTop.
+  Int.RingOps Int.RingOpsProofs Int.RingOpsMulProofs Int.RingPowProofs Int.RingTop Int.RingExamples.
 From DashuGen Require Import SignTables Params.
 Open Scope Z_scope.
 
